@@ -8,7 +8,7 @@ PROPERTY = "C08"
 RULE = ("enum: every triple (n+, n-, N) with N<=80 (quick) / N<=160 (thorough), each realised as an actual sequence "
         "(seed-chosen arrangement and spelling; every 7th triple additionally through a second arrangement). Oracle: exact "
         "rational evaluation of the stated thresholds (1/4, 35/100); never raises; result in 1..5; equal for both realisations. "
-        "hyp: sequences up to 40 residues after a generated warm-up history of other API calls on the same object (pH getters at pH 0/7/14, kappa, profiles ...). Non-trivial: every triple (distinct by (n+, n-, N)); boundary triples (FCR in {1/4, 7/20} or |NCPR| = 7/20) are counted separately.")
+        "boundary-band: for N=81..400 step 3 (quick) / 161..1000 (thorough) every composition within two residues of a threshold; hyp: long (128-600) highly charged sequences and sequences up to 40 residues after a generated warm-up history of other API calls on the same object (pH getters at pH 0/7/14, kappa, profiles ...). Non-trivial: every triple (distinct by (n+, n-, N)); boundary triples (FCR in {1/4, 7/20} or |NCPR| = 7/20) are counted separately.")
 ASSUMPTIONS = ["thresholds as exact rationals 1/4 and 35/100, exactly as the statement gives them"]
 TECHNIQUE = "exhaustive enumeration of composition space (which the function factors through) against an exact-rational threshold oracle"
 LEVEL_TEXT = ("Exploration, complete in composition space up to N=80 (quick) / 160 (thorough): the function depends only on (n+, n-, N), "
@@ -56,10 +56,36 @@ def check_warm(ctx, case):
 def hyp_case():
     from hypothesis import strategies as st
     from .. import gens
-    return st.builds(lambda s, w: {"seq": s, "warm": w}, gens.sequences(max_len=40), gens.warmups())
+    return st.one_of(st.builds(lambda s, w: {"seq": s, "warm": w}, gens.sequences(max_len=40), gens.warmups()),
+                     st.builds(lambda s, w: {"seq": s, "warm": w}, gens.sequences(max_len=40), gens.warmups()),
+                     st.builds(lambda s: {"seq": s, "warm": []}, gens.long_charged(128, 600)))
+
+
+def band_cases(tier, seed):
+    """Long sequences whose composition lies within two residues of a threshold (FCR 1/4, 7/20; |NCPR| 7/20)."""
+    rnd = random.Random(seed + 11)
+    lo, hi, step = (81, 400, 3) if tier == "quick" else (161, 1000, 1)
+    for N in range(lo, hi + 1, step):
+        seen = set()
+        for thr in (0.25, 0.35):
+            c0 = int(thr * N)
+            for c in range(max(0, c0 - 2), min(N, c0 + 3) + 1):
+                for P in sorted(set([0, c, c // 2, (c + 1) // 2, max(0, c // 2 - 1), rnd.randint(0, c)])):
+                    if 0 <= P <= c:
+                        seen.add((P, c - P))
+        d0 = int(0.35 * N)
+        for d in range(max(0, d0 - 2), d0 + 3):
+            for extra in (0, 1, 2, rnd.randint(0, max(0, (N - d) // 2))):
+                P, M = d + extra, extra
+                if P + M <= N:
+                    seen.add((P, M))
+                    seen.add((M, P))
+        for P, M in sorted(seen):
+            yield {"comp": [P, M, N - P - M], "seqs": [util.spell(util.arrange(P, M, N - P - M, rnd), rnd)]}
 
 
 def parts(tier):
     return [Part("enum-triples", "enum", check=check, cases=cases, exhaustive=True, shards={"quick": 16, "thorough": 16}),
+            Part("enum-boundary-band", "enum", check=check, cases=band_cases, exhaustive=False, shards={"quick": 16, "thorough": 16}),
             Part("hyp-after-history", "hyp", check=check_warm, strategy=lambda t: hyp_case(),
                  examples={"quick": 1600, "thorough": 16000}, shards={"quick": 16, "thorough": 16})]
